@@ -106,5 +106,74 @@ theorem rangeOf_media {piece : Str} {m : Mime} (hr : rangeOf piece = some m)
     subst hr
     exact trimOWS_eq_trim_space hne hows
 
+/-- the router admitted a (non-empty) header on one of its elements: its media type, as the router
+    reads it, is the wildcard or produced -/
+theorem admitted_piece {a : Str} {P reg : List Str} (h : WF P reg) (ha : a ≠ [])
+    (hadm : routerAdmits a P = true) :
+    ∃ piece ∈ split ',' a, mediaOf piece = starStar ∨ mediaOf piece ∈ P := by
+  have hne : (if a.isEmpty = true then starStar else a) = a := by cases a <;> simp_all
+  unfold routerAdmits at hadm
+  rw [hne] at hadm
+  have hacc := acceptLoop_sound _ _ hadm
+  simp only [List.any_eq_true, Bool.or_eq_true, beq_iff_eq] at hacc
+  obtain ⟨piece, hp, hm⟩ := hacc
+  refine ⟨piece, hp, ?_⟩
+  rcases hm with hm | ⟨p, hpP, hp' | hp'⟩
+  · exact Or.inl hm
+  · exact absurd (hp' ▸ hpP) h.star_not_mem
+  · exact Or.inr (hp' ▸ hpP)
+
+/-- a non-empty header the router admits does not normalise to the empty header: the element it was
+    admitted on keeps its media type -/
+theorem dropOWS_ne_nil_of_admitted {a : Str} {P reg : List Str} (h : WF P reg) (ha : a ≠ [])
+    (hadm : routerAdmits a P = true) : dropOWS a ≠ [] := by
+  obtain ⟨piece, hp, hm⟩ := admitted_piece h ha hadm
+  intro hd
+  have hs := split_dropOWS a
+  rw [hd] at hs
+  have hmem : normElem piece ∈ split ',' ([] : Str) := by
+    rw [hs]; exact List.mem_map.mpr ⟨piece, hp, rfl⟩
+  have hnil : normElem piece = [] := by
+    have : split ',' ([] : Str) = [[]] := by decide
+    rw [this] at hmem
+    simpa using hmem
+  have hsp := split_eq ';' piece
+  have hn := split_normElem hsp
+  rw [hnil] at hn
+  have h0 : split ';' ([] : Str) = [[]] := by decide
+  rw [h0] at hn
+  have ht : trimOWS (piece.takeWhile (· != ';')) = [] := by
+    have := (List.cons.inj hn).1
+    exact this.symm
+  have hmedia : trimOWS (piece.takeWhile (· != ';')) = mediaOf piece := by
+    apply trimOWS_eq_trim_space
+    · rcases hm with e | e
+      · show mediaOf piece ≠ []
+        rw [e]; decide
+      · exact wfMedia_ne_nil (h.pMedia _ e)
+    · rcases hm with e | e
+      · show ∀ c ∈ mediaOf piece, isOWS c = false
+        rw [e]; exact star_no_ows
+      · exact wfMedia_no_ows (h.pMedia _ e)
+  rw [hmedia] at ht
+  rcases hm with e | e
+  · rw [e] at ht; exact absurd ht (by decide)
+  · exact wfMedia_ne_nil (h.pMedia _ e) ht
+
+/-- two admitted headers with one normal form are both present or both absent -/
+theorem isEmpty_eq_of_admitted {a a' : Str} {P reg : List Str} (h : WF P reg)
+    (hadm : routerAdmits a P = true) (hadm' : routerAdmits a' P = true) (hd : dropOWS a = dropOWS a') :
+    a.isEmpty = a'.isEmpty := by
+  have h0 : dropOWS [] = [] := by decide
+  by_cases ha : a = [] <;> by_cases ha' : a' = []
+  · rw [ha, ha']
+  · subst ha
+    rw [h0] at hd
+    exact absurd hd.symm (dropOWS_ne_nil_of_admitted h ha' hadm')
+  · subst ha'
+    rw [h0] at hd
+    exact absurd hd (dropOWS_ne_nil_of_admitted h ha hadm)
+  · cases a <;> cases a' <;> simp_all
+
 end Mime
 end Restful
